@@ -1031,7 +1031,17 @@ class Engine:
                 if ps_[a_] is not None:
                     X = ps_[a_][2][2] if ps_[a_][1] == "elem" else ps_[a_][2]
                     other = xs[b_]
-                    other_v = st.mem.get(other) if isinstance(other, tuple) and other[:1] in (("var",), ("tmp",)) else other
+                    other_v = other
+                    for _ in range(4):
+                        if isinstance(other_v, tuple) and other_v[:1] in (("var",), ("tmp",)):
+                            nxt_ = st.mem.get(other_v)
+                            if nxt_ is None:
+                                nxt_ = st.mem.get(("copyof", other_v))
+                            if nxt_ is None:
+                                break
+                            other_v = nxt_
+                        else:
+                            break
                     if is_end_of(other_v, X) or (isinstance(other_v, tuple) and other_v[:2] == ("iter", "end") and other_v[2] == X):
                         equal = ps_[a_][1] == "end"
                         return [(st, C(1 if (equal == (short == "operator==")) else 0))]
